@@ -68,3 +68,47 @@ Theorem C04_refusal_on_code : forall reenc : str -> str,
 Proof. exact Server_on_code.refusal_on_code. Qed.
 Print Assumptions C04_refusal_on_code.
 
+(* ---- tie to the code (server/server.py start_server, __main__._serve, server/config.py): theorems of coq/Equiv/EquivWiring.v (their statements are there; several live in Sections
+   over the configuration, so they are cited by type), re-checked against coq/Gen/WiringGen.v regenerated from /repo's
+   working tree; see DESIGN.md 11.11 ---- *)
+From NV Require Equiv.EquivWiring.
+Theorem C04_code_wiring_middlewares_tie : ltac:(let t := type of @EquivWiring.middlewares_tie in exact t).
+Proof. exact (@EquivWiring.middlewares_tie). Qed.
+Print Assumptions C04_code_wiring_middlewares_tie.
+
+Theorem C04_code_wiring_each_configured_once : ltac:(let t := type of @EquivWiring.each_configured_once in exact t).
+Proof. exact (@EquivWiring.each_configured_once). Qed.
+Print Assumptions C04_code_wiring_each_configured_once.
+
+Theorem C04_code_wiring_wiring_order_tie : ltac:(let t := type of @EquivWiring.wiring_order_tie in exact t).
+Proof. exact (@EquivWiring.wiring_order_tie). Qed.
+Print Assumptions C04_code_wiring_wiring_order_tie.
+
+Theorem C04_code_wiring_chain_none_iff : ltac:(let t := type of @EquivWiring.chain_none_iff in exact t).
+Proof. exact (@EquivWiring.chain_none_iff). Qed.
+Print Assumptions C04_code_wiring_chain_none_iff.
+
+Theorem C04_code_wiring_one_listener_in_every_case : ltac:(let t := type of @EquivWiring.one_listener_in_every_case in exact t).
+Proof. exact (@EquivWiring.one_listener_in_every_case). Qed.
+Print Assumptions C04_code_wiring_one_listener_in_every_case.
+
+Theorem C04_code_wiring_every_factory_same_chain_and_router : ltac:(let t := type of @EquivWiring.every_factory_same_chain_and_router in exact t).
+Proof. exact (@EquivWiring.every_factory_same_chain_and_router). Qed.
+Print Assumptions C04_code_wiring_every_factory_same_chain_and_router.
+
+Theorem C04_code_wiring_protocol_consults_the_wired_list : ltac:(let t := type of @EquivWiring.protocol_consults_the_wired_list in exact t).
+Proof. exact (@EquivWiring.protocol_consults_the_wired_list). Qed.
+Print Assumptions C04_code_wiring_protocol_consults_the_wired_list.
+
+Theorem C04_code_wiring_wired_chain_admits_iff : ltac:(let t := type of @EquivWiring.wired_chain_admits_iff in exact t).
+Proof. exact (@EquivWiring.wired_chain_admits_iff). Qed.
+Print Assumptions C04_code_wiring_wired_chain_admits_iff.
+
+Theorem C04_code_wiring_wired_first_rejection_supplies : ltac:(let t := type of @EquivWiring.wired_first_rejection_supplies in exact t).
+Proof. exact (@EquivWiring.wired_first_rejection_supplies). Qed.
+Print Assumptions C04_code_wiring_wired_first_rejection_supplies.
+
+Theorem C04_code_wiring_cli_wiring : ltac:(let t := type of @EquivWiring.cli_wiring in exact t).
+Proof. exact (@EquivWiring.cli_wiring). Qed.
+Print Assumptions C04_code_wiring_cli_wiring.
+
